@@ -198,6 +198,11 @@ def run(ctx):
         if None not in hs and all(hs[i + 1] > hs[i] for i in range(2, 5)):
             ctx.violation('memory-not-released', 'start+stop', f'allocated bytes grow with every identical attempt: {hs} ({classes}, first result {rets[0].get("r")})', text, 'asan', meta)
             continue
+        fds = [e.get('fds') for e in ev if e.get('e') == 'heap' and str(e.get('tag', '')).startswith('att')]
+        if len(fds) == 6 and None not in fds and -1 not in fds and fds[5] > fds[0]:
+            ctx.violation('descriptor-not-released', 'start+stop', f'open file descriptors after each of six identical attempts: {fds} ({classes}, first result {rets[0].get("r")})', text, 'asan', meta)
+            continue
+        ctx.count('fd_series_checked')
         if rets[6].get('r') != 0:
             ctx.violation('not-restartable', 'valid-config', f'after the rejected/accepted mutated configuration a start with a valid configuration returned {rets[6].get("r")}', text, 'asan', meta)
             continue
